@@ -310,7 +310,7 @@ Proof.
       * right. pose proof (index_touch_other k' k (rcy m) H4 Hne). lia.
 Qed.
 
-(* a key the model does not hold live is one the monitor admits to be absent *)
+(* a key the model does not hold live is one the monitor allows to be absent *)
 Lemma may_be_absent_true c m k now : sim c m ->
   (find_k k (l c) = None \/ exists n, find_k k (l c) = Some n /\ dl n < now) -> may_be_absent (size c) m k now = true.
 Proof.
